@@ -464,6 +464,73 @@ func ruleShimNilMessages(c *Ctx, p *Prog, rule string) {
 				}
 			}
 		}
+		// a closed channel yields the zero value — a nil pointer — to a receive that does not
+		// look at its second result
+		closedAt := ""
+		for _, op := range sc.Ops {
+			if op.Kind == "close" {
+				closedAt = FuncName(op.Fn) + " at " + p.Pos(op.Instr.Pos())
+			}
+		}
+		if closedAt != "" {
+			badc := ""
+			nr := 0
+			for _, op := range sc.Ops {
+				if op.Kind != "recv" || op.Val == nil {
+					continue
+				}
+				if _, isPtr := op.Val.Type().Underlying().(*types.Pointer); !isPtr {
+					continue
+				}
+				nr++
+				// the ok of this receive
+				var okVal ssa.Value
+				if op.Select != nil {
+					for _, r := range Refs(op.Select) {
+						if e, isE := r.(*ssa.Extract); isE && e.Index == 1 {
+							okVal = e
+						}
+					}
+				} else if u, isU := op.Instr.(*ssa.UnOp); isU && u.CommaOk {
+					for _, r := range Refs(u) {
+						if e, isE := r.(*ssa.Extract); isE && e.Index == 1 {
+							okVal = e
+						}
+					}
+				}
+				for _, u := range Refs(op.Val) {
+					deref := false
+					switch x := u.(type) {
+					case *ssa.FieldAddr:
+						deref = x.X == op.Val
+					case *ssa.UnOp:
+						deref = x.Op == token.MUL && x.X == op.Val
+					case *ssa.Call:
+						if len(PArgs(&x.Call)) > 0 && PArgs(&x.Call)[0] == op.Val && x.Call.Signature().Recv() != nil {
+							deref = true
+						}
+					}
+					if !deref {
+						continue
+					}
+					guarded := false
+					for _, g := range GuardConds(u) {
+						if okVal != nil && g.Cond == okVal && g.Truth {
+							guarded = true
+						}
+						if bo, isB := g.Cond.(*ssa.BinOp); isB && (bo.X == op.Val && IsNilConst(bo.Y) || bo.Y == op.Val && IsNilConst(bo.X)) {
+							if bo.Op == token.NEQ && g.Truth || bo.Op == token.EQL && !g.Truth {
+								guarded = true
+							}
+						}
+					}
+					if !guarded {
+						badc = fmt.Sprintf("%s dereferences the value received at %s without having tested the receive's ok (or the value for nil)", FuncName(op.Fn), p.Pos(u.Pos()))
+					}
+				}
+			}
+			c.Check(rule, "Connection."+sc.Field+":receivers-see-the-close", p, posOfOps(sc.Ops), badc == "", fmt.Sprintf("the channel is closed (%s); all %d receive site(s) of pointer values test ok (or nil) before dereferencing", closedAt, nr), "the channel "+sc.Field+" is closed ("+closedAt+") and "+badc+": once the backend has hung up the receive yields nil and the handler panics in a goroutine nothing recovers — the agent dies with all its requests")
+		}
 		key := "Connection." + sc.Field + ":nil-safe-receivers"
 		if mayNil == "" {
 			c.OK(rule, key, p, posOfOps(sc.Ops), "no send site can send a nil pointer")
